@@ -21,6 +21,29 @@ def pair_cubes(p, npairs, extra=None):
     return out
 
 
+def embed_cubes(P, labels, npairs, dag=False, extra=None):
+    """cubes for a small graph EMBEDDED in P nodes: only pairs among `labels` may be adjacent (all other nodes
+    are isolated); the states of the first npairs label pairs are fixed.  Used for 'wide' obligations that put
+    nodes with large / unordered indices (hash order, index arithmetic) into play."""
+    labels = list(labels)
+    pairs = [(labels[a], labels[b]) for a in range(len(labels)) for b in range(a + 1, len(labels))][:npairs]
+    out = []
+    for st in itertools.product((0, 1, 2) if dag else (0, 1, 2, 3), repeat=len(pairs)):
+        d = dict(p=P, embed=labels, fixpairs=[[i, j, s_] for (i, j), s_ in zip(pairs, st)])
+        if extra:
+            d.update(extra)
+        out.append(d)
+    return out
+
+
+def _allowed(params, p):
+    labels = params.get('embed')
+    if labels is None:
+        return lambda i, j: i != j
+    ls = set(labels)
+    return lambda i, j: i != j and i in ls and j in ls
+
+
 def dag_pair_cubes(p, npairs, extra=None):
     return [c for c in pair_cubes(p, npairs, extra) if all(s != 3 for (_, _, s) in c['fixpairs'])]
 
@@ -55,8 +78,9 @@ def weighted_dag(ctx, name='w'):
     rows: p x p list of (Real SV | 0.0); pattern: 0/1 tuple-of-tuples"""
     e = ctx.eng
     p = ctx.params['p']
-    sym = [[e.real('%s_%d_%d' % (name, i, j)) if i != j else 0.0 for j in range(p)] for i in range(p)]
-    nz = [[G.T(sym[i][j] != 0) if i != j else False for j in range(p)] for i in range(p)]
+    ok = _allowed(ctx.params, p)
+    sym = [[e.real('%s_%d_%d' % (name, i, j)) if ok(i, j) else 0.0 for j in range(p)] for i in range(p)]
+    nz = [[G.T(sym[i][j] != 0) if ok(i, j) else False for j in range(p)] for i in range(p)]
     e.assume(G.Z(G.acyclic(nz)))
     _apply_fix(e, sym, ctx.params)
     e._ensure_model()       # an infeasible cube (e.g. a cyclic combination of fixed pairs) ends here
@@ -64,7 +88,7 @@ def weighted_dag(ctx, name='w'):
     pat = [[0] * p for _ in range(p)]
     for i in range(p):
         for j in range(p):
-            if i != j and bool(sym[i][j] != 0):
+            if ok(i, j) and bool(sym[i][j] != 0):
                 rows[i][j] = sym[i][j]
                 pat[i][j] = 1
     return rows, tuple(tuple(r) for r in pat)
@@ -75,21 +99,22 @@ def binary_pdag(ctx, name='b'):
     returns pattern (0/1 tuple of tuples); entries are decided by the solver"""
     e = ctx.eng
     p = ctx.params['p']
-    sym = [[e.int('%s_%d_%d' % (name, i, j)) if i != j else 0 for j in range(p)] for i in range(p)]
+    ok = _allowed(ctx.params, p)
+    sym = [[e.int('%s_%d_%d' % (name, i, j)) if ok(i, j) else 0 for j in range(p)] for i in range(p)]
     for i in range(p):
         for j in range(p):
-            if i != j:
+            if ok(i, j):
                 e.assume(sym[i][j] >= 0)
                 e.assume(sym[i][j] <= 1)
-    nz = [[G.T(sym[i][j] != 0) if i != j else False for j in range(p)] for i in range(p)]
-    dirm = [[G.directed(nz, i, j) if i != j else False for j in range(p)] for i in range(p)]
+    nz = [[G.T(sym[i][j] != 0) if ok(i, j) else False for j in range(p)] for i in range(p)]
+    dirm = [[G.directed(nz, i, j) if ok(i, j) else False for j in range(p)] for i in range(p)]
     e.assume(G.Z(G.acyclic(dirm)))
     _apply_fix(e, sym, ctx.params)
     e._ensure_model()
     pat = [[0] * p for _ in range(p)]
     for i in range(p):
         for j in range(p):
-            if i != j and bool(sym[i][j] != 0):
+            if ok(i, j) and bool(sym[i][j] != 0):
                 pat[i][j] = 1
     return tuple(tuple(r) for r in pat)
 
@@ -103,3 +128,14 @@ def subsets(items):
     for r in range(len(items) + 1):
         for c in itertools.combinations(items, r):
             yield set(c)
+
+
+def universe(pat):
+    """nodes over which node sets are enumerated: all nodes for small graphs; for wide (embedded) graphs the
+    non-isolated nodes plus the smallest isolated one (the same rule is used by the replay side)"""
+    p = len(pat)
+    if p <= 5:
+        return list(range(p))
+    act = [i for i in range(p) if any(pat[i][j] or pat[j][i] for j in range(p))]
+    iso = [i for i in range(p) if i not in act]
+    return sorted(act + iso[:1])
